@@ -362,9 +362,13 @@ def r4_context_offset(ck, cx):
         ck.ob('R4', ic.qn + '.__fx_mapper', 'fc %d -> table %r' % (fc, t), m.get(fc) == t,
               detail='fx %d -> %r' % (fc, m.get(fc)), loc=ic.loc)
     d = cx.method(ic, 'decode')
-    rets = [n for n in ast.walk(d.node) if isinstance(n, ast.Return)]
-    ok = len(rets) == 1 and isinstance(rets[0].value, ast.Subscript) and U(rets[0].value.value) == 'self.__fx_mapper' \
-        and U(rets[0].value.slice) == d.params[1]
+    # the returned expression with locals looked through (value propagation on the single path)
+    ok = False
+    rps = [p_ for p_ in cx.enum(d, ic, max_depth=0) if not (p_.exit and p_.exit[0] == 'exc')]
+    if len(rps) == 1:
+        annotate(rps[0], heap=False)
+        rv = ret_expr(rps[0])
+        ok = isinstance(rv, ast.Subscript) and U(rv.value).endswith('__fx_mapper') and U(rv.value).startswith('self.') and U(rv.slice) == d.params[1]
     ck.ob('R4', d.qn, 'decode(fx) is the table lookup __fx_mapper[fx]', ok, detail='decode-shape', loc=cx.floc(d))
 
 
